@@ -48,6 +48,9 @@ pub enum St {
     EncodedKeyValid,
     EncodedKeyUnparsable,
     EncodedKeyRepeated,
+    /// query: a value whose text, after the one round of URL decoding the wire format has, still
+    /// reads like an escape (`%2531` carries the text `%31`): a string, and nothing else
+    EscapedEscape,
 }
 
 #[derive(Clone)]
@@ -404,6 +407,7 @@ pub fn states_of(a: &ArgD) -> Vec<St> {
             if a.single {
                 v.push(St::EncodedKeyRepeated);
             }
+            v.push(St::EscapedEscape);
             if !a.single {
                 v.push(St::EmptyAmongValues);
             }
@@ -435,7 +439,7 @@ pub fn corrupts(a: &ArgD, s: St) -> bool {
         St::Valid | St::EncodedKeyValid => false,
         St::Absent => a.required,
         // the empty text is a string (and nothing else)
-        St::EmptyText | St::BareKey | St::EmptyAmongValues => a.typed,
+        St::EmptyText | St::BareKey | St::EmptyAmongValues | St::EscapedEscape => a.typed,
         _ => true,
     }
 }
@@ -491,6 +495,7 @@ pub fn build(e: &EndpointD, states: &[St]) -> Built {
                     query.push(format!("{}={}", k, a.valid));
                     query.push(format!("{}={}", enc_key(k), a.valid));
                 }
+                St::EscapedEscape => query.push(format!("{}=%25{:02X}{}", k, a.valid.as_bytes()[0], &a.valid[1..])),
                 St::EmptyText => query.push(format!("{}=", k)),
                 St::BareKey => query.push(k.to_string()),
                 St::EmptyAmongValues => {
